@@ -16,6 +16,7 @@ TECHNIQUE = 'runtime monitor: type census of every node result (M1+M8) and audit
 RULE = "(1) every name in the function table x arities 0-4 x argument expressions from a hostile pool (plain scalars, attribute-/format-like strings, dotted %a.b% names bound and unbound, nested and aliased containers, tuples, slices, program lambdas, the builtin objects themselves, ast_names helpers), through eval in call, method and pipe spelling, plus index/slice/assignment of the result; (1b) every ordered pair of table entries called one after the other with identical arguments; (1c) the parameter names of the builtins' implementations spelled as keyword-like arguments; (2) random derivations of the grammar whose identifiers are builtin names, plain-data host names and ast_names helpers, with one-token mutations; compiled lambdas and parsed trees are supplied through ast_names. Host binds plain data only. Every node result, the final result and everything reachable from names afterwards is censused; audit events are filtered inside every eval. Non-trivial = at least one node result was censused; distinct = distinct source text."
 RULE += ' (1d) every table entry with every 2- and 3-tuple (sampled 4-tuples) over a focused pool {text, pattern, list, dict, two program lambdas, number, string}; results are also indexed with fractional numbers.'
 RULE += ' One ast_names evaluation in four also carries a helper whose own evaluation fails (names must still hold plain data afterwards).'
+RULE += " Coverage-guided programs: one atheris/libFuzzer process per worker (6 s quick, 150 s thorough) runs this check's own judgement (census of every node result, audit events) on generated program texts over the instrumented sandbox copy; programs on which a violation was recorded there are judged again by the worker."
 ASSUMPTIONS = ['plain data = None, bool, int, float, Decimal, str and list/tuple/dict/slice of these; allowed callables = the objects of the pristine function '
                'table (by identity) and callables produced by lambda nodes',
                'audit events are the observable for file/process/network/import/dynamic-code activity (CPython raises them for open, os.*, socket.*, import, exec, compile, ...)',
@@ -133,6 +134,7 @@ def cases(ctx):
                 for a in (rnd.sample(SAME, 2) if ctx.quick else SAME):
                     yield ('pair', f, g, a)
             n += 1
+    yield ('cgf', rnd.getrandbits(30), ctx.scale(6, 150))          # coverage-guided programs, one fuzzing process per worker
     # (2)/(3) grammar-derived compositions over builtin and data names
     for _ in range(ctx.scale(6000, 100000)):
         yield ('gram', rnd.getrandbits(40))
@@ -169,8 +171,37 @@ def gram_source(ctx, seed):
     return gram.render(types, r, pools=pools)[1]
 
 
+def case_deadline(case):
+    return case[2] + 400 if case[0] == 'cgf' else CASE_DEADLINE
+
+
+def run_cgf(case, ctx):
+    """coverage-guided programs: an atheris/libFuzzer process runs THIS check's run_case on ('src', text) cases over the instrumented sandbox copy (census of
+    every node result, audit events); programs on which a violation was recorded there are judged again here"""
+    from lib import cgdriver
+    _, seed, seconds = case
+    r = random.Random(seed)
+    seeds = ['dict[1]', 's | upper | len', 'map(l, v => [v, str])', '%user.name%', 'x = items(d)\nx[0]', 'sorted(ls, v => v)[0:1]', 'match_all(s, rx)', 'get(dn, "k") | keys | reversed', 'enumerate(lt)[0][1]',
+             'f = v => v\n[f, f(len)]', 'fmt + dun', 'nest[1]["k"] | list', 'tup | reversed', '{"a": sl}', 'mix | map(v => str(v))']
+    for name in r.sample(ctx.fn_names, 12):
+        seeds.append(call_source(ctx, name, r.randint(1, 3), r.getrandbits(30)))
+    out = cgdriver.run(ctx, 'check:C02:src', seed, seconds, seeds)
+    if out is None:
+        return
+    st, fired, _slow = out
+    ctx.count('node_results_censused_in_the_fuzzing_process', (st.get('counters') or {}).get('node_results_censused', 0))
+    for text in fired:
+        ctx.count('programs_on_which_the_oracle_fired_in_the_fuzzing_process')
+        before = len(ctx.violations)
+        run_case(('src', text), ctx)
+        if len(ctx.violations) == before:
+            ctx.violation('coverage-guided fuzzing: a violation was recorded in the fuzzing process but not when the program was judged again here', ('src', text), detail={'src': text[:300]})
+
+
 def run_case(case, ctx):
     kind = case[0]
+    if kind == 'cgf':
+        return run_cgf(case, ctx)
     if kind == 'src':
         src = case[1]
     elif kind == 'call':
